@@ -1,6 +1,7 @@
 package main
 
 import (
+	"sync"
 	"encoding/json"
 	"errors"
 	"fmt"
@@ -117,6 +118,9 @@ func checkC14(c *Ctx) {
 		c.Add("traces_validated_against_impl", 1)
 	}})
 	c.Set("message_cases", int64(nm))
+	for _, f := range replaySugarConcurrentDiagnostics() {
+		c.Violation(f.Key, f.What, map[string]interface{}{"mode": "concurrent-diagnostics"})
+	}
 	// WithLazy arguments reach every entry also when several goroutines make the first use together
 	runLazyOnceV(c, "C14/", func(k string) bool { return k == "lazy/context" || k == "lazy/entry-missing" || k == "lazy/panic" }, []int{4, 5})
 	c.Set("exhaustive", true)
@@ -138,13 +142,19 @@ func replaySugar(b sugarBeh, method string, variant int) (finds []Finding) {
 	}
 	desc := fmt.Sprintf("%s(%v) with classes %v", method, describeArgs(args), b.Args)
 	s, logs := sugarLogger()
+	// a third of the cases on a development-mode logger: malformed arguments are reported there too, not thrown
+	dev := variant%3 == 2
+	if dev {
+		s = s.WithOptions(zap.Development())
+		desc += " on a Development() logger"
+	}
 	func() {
 		defer func() {
 			r := recover()
 			if r == nil {
 				return
 			}
-			if method == "Panicw" || method == "Fatalw" {
+			if method == "Panicw" || method == "Fatalw" || (dev && method == "DPanicw") {
 				if str, ok := r.(string); ok && str == "MAIN" {
 					return
 				}
@@ -434,6 +444,71 @@ func replaySugarMsg(b sugarMsgBeh, variant int) (finds []Finding) {
 				add(key, "%s logged message %q; fmt gives %q", desc, es[0].Message, want)
 			}
 		}
+	}
+	return finds
+}
+
+
+// ---- malformed calls from several goroutines on one SugaredLogger ----
+
+type c14GateCore struct {
+	zapcore.Core
+	entered, release chan struct{}
+	once             sync.Once
+}
+
+func (c *c14GateCore) With(fs []zapcore.Field) zapcore.Core { return c } // context is irrelevant here
+func (c *c14GateCore) Check(e zapcore.Entry, ce *zapcore.CheckedEntry) *zapcore.CheckedEntry {
+	return ce.AddCore(e, c)
+}
+func (c *c14GateCore) Write(e zapcore.Entry, fs []zapcore.Field) error {
+	if e.Level == zapcore.ErrorLevel {
+		c.once.Do(func() { close(c.entered); <-c.release })
+	}
+	return c.Core.Write(e, fs)
+}
+
+// replaySugarConcurrentDiagnostics: goroutine A's report about a malformed argument is still being written (slow
+// sink) when goroutine B passes malformed arguments to the same SugaredLogger. Both are reported.
+func replaySugarConcurrentDiagnostics() (finds []Finding) {
+	add := func(key, f string, a ...interface{}) { finds = append(finds, Finding{Key: key, What: fmt.Sprintf(f, a...)}) }
+	ocore, logs := observer.New(zap.DebugLevel)
+	gc := &c14GateCore{Core: ocore, entered: make(chan struct{}), release: make(chan struct{})}
+	s := zap.New(gc).Sugar()
+	done := make(chan struct{})
+	go func() { defer close(done); s.Infow("MAIN-A", "k", 1, "danglingA") }()
+	select {
+	case <-gc.entered:
+	case <-time.After(2 * time.Second):
+		close(gc.release)
+		<-done
+		return []Finding{{Key: "HARNESS/C14-gate", What: "the first diagnostic never reached the core"}}
+	}
+	bdone := make(chan struct{})
+	go func() {
+		defer close(bdone)
+		s.Infow("MAIN-B", "k", 2, "danglingB")
+		s.Warnw("MAIN-B2", 42, "non-string key")
+	}()
+	select {
+	case <-bdone:
+	case <-time.After(2 * time.Second):
+		// B waits for A's report: allowed (then it is reported afterwards)
+	}
+	close(gc.release)
+	<-done
+	<-bdone
+	all := ""
+	for _, e := range logs.All() {
+		all += e.Message + " " + fmt.Sprint(e.ContextMap()) + "\n"
+	}
+	for _, want := range []string{"danglingA", "danglingB", "MAIN-A", "MAIN-B", "MAIN-B2"} {
+		if !strings.Contains(all, want) {
+			add("C14/malformed-arg-vanished", "two goroutines pass malformed arguments to one SugaredLogger while the first report is still being written: nothing logged mentions %q; entries:\n%s", want, all)
+		}
+	}
+	if !strings.Contains(all, "42") {
+		add("C14/malformed-arg-vanished", "two goroutines pass malformed arguments to one SugaredLogger while the first report is still being written: the non-string key 42 of the second goroutine is not reported; entries:\n%s", all)
 	}
 	return finds
 }
